@@ -146,6 +146,8 @@ def run(ctx):
     # event probabilities derived from ensemble members: a member ON the threshold belongs to the event "at or below"
     from harness.checks import c08
     c08._run(ctx, "ens", "small", limit=(400 if ctx.tier == "quick" else None))
+    # the observed event behind the probabilistic scores (Brier family, ignorance): the same eight events, closed ends included
+    c08._run(ctx, "event", "small", limit=(400 if ctx.tier == "quick" else None))
     par.clean_workdirs()
     if ctx.tier == "thorough":
         _apalache(ctx)
